@@ -105,7 +105,7 @@ func verifCheckOCRA(cfg SuiteConfig, in OCRAInput, key []byte, code string) {
 
 //verif:harness prop=C05 name=layout
 //verif:cases quick flags=0..31 hash=0 digits=6 rawlen=24 chfmt=1 ph=1 pooladv=1
-//verif:cases thorough flags=0..31 hash=0..2 digits=4,10 rawlen=0,48 chfmt=2,5 ph=2,3 pooladv=1
+//verif:cases thorough flags=0..31 hash=0,2 digits=4,10 rawlen=0,48 chfmt=5 ph=3 pooladv=1
 //verif:replace github.com/ja7ad/otp.DecodeSecret=verifStub_DecodeSecret
 //verif:opt hmac=fresh unwind=1000 maxpaths=2000
 func verifH_C05_layout() {
